@@ -156,7 +156,28 @@ def impl(case):
     api, nodb = _api(text, case['names'])
     bst, bst_reports = _bst(text, cits)
     py, py_reports = _py(text, cits, case['file'])
-    return {'api': api, 'api_nodb': nodb, 'bst': bst, 'bst_reports': bst_reports, 'py': py, 'py_reports': py_reports}
+    out = {'api': api, 'api_nodb': nodb, 'bst': bst, 'bst_reports': bst_reports, 'py': py, 'py_reports': py_reports}
+    if _leaf_eligible(case['file']):
+        # the engines read the file restricted to the citations: cite ONLY the first entry; its parents are pulled in by the
+        # cross-references (children come before their parents in these files, so finding C05-filtered-parent-before-child does not apply)
+        leaf = [case['file'][0]['key']]
+        rows, _r = _bst(text, leaf)
+        out['bst_leaf'] = [vals[:4] for k, vals in rows if k.lower() == leaf[0].lower()] if isinstance(rows, list) else rows
+        rows, _r = _py(text, leaf, case['file'])
+        out['py_leaf'] = [vals for k, vals in rows if k.lower() == leaf[0].lower()] if isinstance(rows, list) else rows
+    return out
+
+
+def _leaf_eligible(file):
+    """every cross-reference points to an entry further down in the file (so: no cycle, no dangling reference) and the first entry has one"""
+    pos = {e['key'].lower(): i for i, e in enumerate(file)}
+    if not file or len(pos) != len(file) or _xref(file[0]) is None:
+        return False
+    for i, e in enumerate(file):
+        x = _xref(e)
+        if x is not None and pos.get(x.lower(), -1) <= i:
+            return False
+    return True
 
 
 def model_out(case, reply):
@@ -166,6 +187,11 @@ def model_out(case, reply):
     idx = [case['names'].index(n) for n in PY_NAMES]
     if isinstance(out['py'], list):
         out['py'] = [[k, [vals[i] for i in idx]] for k, vals in out['py']]
+    if _leaf_eligible(case['file']):
+        # what the property demands for the first entry when it alone is cited: the same values (the specification's lookup)
+        vals = reply['spec']['lookup'][0][1]
+        out['bst_leaf'] = [[vals[case['names'].index(n)] for n in BST_NAMES[:4]]]
+        out['py_leaf'] = [[vals[i] for i in idx]]
     return out
 
 
@@ -229,6 +255,13 @@ def oracle(case, impl_out, reply):
                     if side != 'api' and tag in ('inherits_nearest', 'missing_iff', 'own_field_wins'):
                         tag = 'engines_agree'
                     fails.append('%s: %s lookup of %r in entry %r gives %r, the property demands %r' % (tag, side, n, key, got, want[key.lower()][i]))
+    if 'bst_leaf' in impl_out:
+        vals = spec['lookup'][0][1]
+        for side, cols in (('bst_leaf', BST_NAMES[:4]), ('py_leaf', PY_NAMES)):
+            exp = [[vals[names.index(n)] for n in cols]]
+            if impl_out[side] != exp:
+                fails.append('engines_agree: with only %r cited (its parents are read because it refers to them) the %s observation of %r is %r, '
+                             'the property demands %r' % (case['file'][0]['key'], side, cols, impl_out[side], exp))
     rows = impl_out['api_nodb']
     if isinstance(rows, list):
         for key, vals in rows:
